@@ -62,6 +62,15 @@ Proof.
   - rewrite <- E. apply IH.
 Qed.
 
+Lemma sig_get_key : forall D cfg k a b (l : list (sentry D)) e,
+  sig_get D cfg k a b l = Some e -> In e l /\ sig_key_eqb D cfg k a b e = true.
+Proof.
+  induction l as [|x r IH]; cbn; intros e H; [discriminate|].
+  destruct (sig_key_eqb D cfg k a b x) eqn:E.
+  - inversion H. subst x. auto.
+  - apply IH in H. tauto.
+Qed.
+
 Section Proofs.
   Variables text tree D : Type.
   Variable text_eqb : text -> text -> bool.
@@ -342,7 +351,9 @@ Section Proofs.
   Proof. intros. apply parsed_run. unfold parsed. cbn. intros. discriminate. Qed.
 
   (* the state of a Script for text t under key k, nothing evicted since *)
-  Definition valid_q (q : query) : Prop := cf_sig cfg = SigIdentity \/ is_QD q = true.
+  Definition valid_q (q : query) : Prop :=
+    match q with QD _ _ => True | QSig a _ => cf_sig cfg = SigAsCoded /\ a <> 0 end.
+
 
   Record script_state (k : N) (t : text) (s : state) : Prop := {
     ss_inv : inv s;
@@ -386,8 +397,12 @@ Section Proofs.
         rewrite (inv_d_ok _ I _ _ _ _ _ L DL). rewrite (inv_cur _ I _ _ _ C L). auto.
       + inversion H; subst; auto.
     - destruct (N.eqb k 0). { inversion H; subst; auto. }
-      destruct V as [V|V]; [|discriminate].
-      unfold sig_find in H. rewrite V in H. inversion H; subst; auto.
+      destruct V as [V Va].
+      assert (F : sig_find text tree D cfg k a b s = None).
+      { unfold sig_find. destruct (sig_get D cfg k a b (st_sig _ _ _ s)) as [e|] eqn:G; auto.
+        apply sig_get_key in G. destruct G as [_ G]. unfold sig_key_eqb in G. rewrite V in G.
+        rewrite !andb_true_iff, !N.eqb_eq in G. tauto. }
+      rewrite F in H. inversion H; subst; auto.
   Qed.
 
   Lemma query_answer : forall s k t m q,
@@ -498,12 +513,14 @@ Section SigProofs.
   Notation lookup_level := (lookup_level text tree D derive sig_of cfg).
 
   Lemma sig_get_some : forall k a b l e,
-    sig_get D k a b l = Some e -> In e l /\ se_path _ e = k /\ se_a _ e = a /\ se_b _ e = b.
+    sig_get D cfg k a b l = Some e -> In e l /\ se_path _ e = k /\ se_a _ e = a /\ se_b _ e = b.
   Proof.
     induction l as [|x r IH]; cbn; intros e H; [discriminate|].
-    destruct (sig_key_eqb D k a b x) eqn:E.
+    destruct (sig_key_eqb D cfg k a b x) eqn:E.
     - inversion H. subst x. unfold sig_key_eqb in E.
-      rewrite !andb_true_iff, !N.eqb_eq in E. destruct E as [[-> ->] ->]. auto.
+      destruct (cf_sig cfg); rewrite !andb_true_iff, !N.eqb_eq in E.
+      + destruct E as [[-> ->] [-> ->]]. auto.
+      + destruct E as [[-> ->] ->]. auto.
     - apply IH in H. tauto.
   Qed.
 
@@ -533,9 +550,7 @@ Section SigProofs.
         apply N.eqb_neq in K0.
         destruct (sig_find _ _ _ _ _ _ _ _). { inversion L; subst; auto. }
         inversion L; subst; clear L. cbn [st_sig] in H1. unfold sig_store in H1.
-        destruct (cf_sig cfg); cbn in H1; destruct H1 as [H1|H1].
-        * right. exists m, a, b, k, tr. auto.
-        * auto.
+        destruct H1 as [H1|H1].
         * right. exists m, a, b, k, tr. auto.
         * apply filter_In in H1. tauto.
     - auto.
@@ -616,8 +631,8 @@ Section SigProofs.
     destruct (sig_find text tree D cfg k a b (final h)) as [d0|] eqn:F.
     2:{ cbn in H. destruct m; cbn in H; discriminate. }
     assert (d0 = d) by (destruct m; cbn in H; inversion H; auto). subst d0.
-    unfold sig_find in F. destruct (cf_sig cfg); [discriminate|].
-    destruct (sig_get D k a b (st_sig _ _ _ (final h))) as [e|] eqn:G; [|discriminate].
+    unfold sig_find in F.
+    destruct (sig_get D cfg k a b (st_sig _ _ _ (final h))) as [e|] eqn:G; [|discriminate].
     destruct (N.ltb (st_clock _ _ _ (final h)) (se_expiry _ e)) eqn:LT; [|discriminate].
     inversion F. subst d. apply N.ltb_lt in LT.
     apply sig_get_some in G. destruct G as (Hin & <- & <- & <-).
@@ -628,17 +643,23 @@ Section SigProofs.
   Lemma pathless_never_cached_l : forall h e, In e (st_sig _ _ _ (final h)) -> se_path _ e <> 0.
   Proof. intros h e H. apply (sig_prov_all _ _ H). Qed.
 
-  Lemma identity_key_never_hits_l : forall s m a b mh ch ans,
-    cf_sig cfg = SigIdentity ->
-    snd (step s (Query m (QSig a b))) = EvAns mh ch ans -> ch = false.
+  (* with the key as coded only a call whose bracket is NOT in the scanned text can hit *)
+  Lemma coded_key_hits_only_without_bracket_l : forall s m a b mh ans,
+    cf_sig cfg = SigAsCoded ->
+    snd (step s (Query m (QSig a b))) = EvAns mh true ans -> a = 0.
   Proof.
-    intros s m a b mh ch ans Hs H. cbn [C08_History.step] in H. unfold C08_History.do_query in H.
-    destruct (st_cur _ _ _ s) as [[k tr]|]; [|cbn in H; inversion H; auto].
+    intros s m a b mh ans Hs H. cbn [C08_History.step] in H. unfold C08_History.do_query in H.
+    destruct (st_cur _ _ _ s) as [[k tr]|]; [|cbn in H; inversion H].
     destruct (if m then qlookup (QSig a b) (st_memo _ _ _ s) else None);
-      [cbn in H; inversion H; auto|].
+      [cbn in H; inversion H|].
     unfold C08_History.lookup_level in H.
-    destruct (N.eqb k 0); [cbn in H; destruct m; cbn in H; inversion H; auto|].
-    unfold sig_find in H. rewrite Hs in H. cbn in H. destruct m; cbn in H; inversion H; auto.
+    destruct (N.eqb k 0); [cbn in H; destruct m; cbn in H; inversion H|].
+    destruct (sig_find text tree D cfg k a b s) eqn:F.
+    2:{ cbn in H. destruct m; cbn in H; inversion H. }
+    unfold sig_find in F.
+    destruct (sig_get D cfg k a b (st_sig _ _ _ s)) as [e|] eqn:G; [|discriminate].
+    apply sig_get_key in G. destruct G as [_ G]. unfold sig_key_eqb in G. rewrite Hs in G.
+    rewrite !andb_true_iff, !N.eqb_eq in G. tauto.
   Qed.
 
   (* with the intended textual key: once the validity has passed, nothing stale is left *)
@@ -675,12 +696,12 @@ Section SigProofs.
     assert (ans = Some (eval_pure tree D derive sig_of (parse t) q)).
     { destruct q as [c a|a b].
       - eapply (lookup_level_answer text tree D parse derive sig_of cfg Hkey); eauto.
-        right. auto.
+        exact I.
       - unfold C08_History.lookup_level in L.
         destruct (N.eqb k 0). { inversion L; subst; auto. }
         assert (F : sig_find text tree D cfg k a b s2 = None).
-        { unfold sig_find. destruct (cf_sig cfg); auto.
-          destruct (sig_get D k a b (st_sig _ _ _ s2)) as [e|] eqn:G; auto.
+        { unfold sig_find.
+          destruct (sig_get D cfg k a b (st_sig _ _ _ s2)) as [e|] eqn:G; auto.
           apply sig_get_some in G. destruct G as (Hin & _).
           rewrite Hs in Hin. apply filter_In in Hin. destruct Hin as [Hin _].
           apply B1 in Hin. rewrite Hc.
@@ -698,16 +719,16 @@ Definition ansN (cfg : config) (reparse : N -> N -> N -> N) (h : list (@op N)) :
   answer N N N N.eqb (fun t => t) reparse (fun _ tr _ => tr) (fun tr _ _ => tr) cfg h.
 
 Lemma path_keyed_witness :
-  ansN (mkConfig ByPath SigIdentity MemoPerScript 6) (fun _ _ t => t)
+  ansN (mkConfig ByPath SigAsCoded MemoPerScript 6) (fun _ _ t => t)
        ([Edit 1 10; Query false (QD 0 5)] ++ [Edit 1 11; Query false (QD 0 5)]) = Some 10 /\
-  ansN (mkConfig ByPath SigIdentity MemoPerScript 6) (fun _ _ t => t)
+  ansN (mkConfig ByPath SigAsCoded MemoPerScript 6) (fun _ _ t => t)
        [Edit 1 11; Query false (QD 0 5)] = Some 11.
 Proof. split; vm_compute; reflexivity. Qed.
 
 Lemma memo_shared_witness :
-  ansN (mkConfig ByVersion SigIdentity MemoShared 6) (fun _ _ t => t)
+  ansN (mkConfig ByVersion SigAsCoded MemoShared 6) (fun _ _ t => t)
        ([Edit 1 10; Query true (QD 0 5)] ++ [Edit 1 11; Query true (QD 0 5)]) = Some 10 /\
-  ansN (mkConfig ByVersion SigIdentity MemoShared 6) (fun _ _ t => t)
+  ansN (mkConfig ByVersion SigAsCoded MemoShared 6) (fun _ _ t => t)
        [Edit 1 11; Query true (QD 0 5)] = Some 11.
 Proof. split; vm_compute; reflexivity. Qed.
 
@@ -716,6 +737,12 @@ Lemma textual_sig_witness :
        ([Edit 1 10; Query false (QSig 3 4)] ++ [Edit 1 11; Query false (QSig 3 4)]) = Some 10 /\
   ansN (mkConfig ByVersion SigTextual MemoPerScript 6) (fun _ _ t => t)
        [Edit 1 11; Query false (QSig 3 4)] = Some 11.
+Proof. split; vm_compute; reflexivity. Qed.
+
+Lemma multiline_call_witness :
+  ansN real_config (fun _ _ t => t)
+       ([Edit 1 10; Query false (QSig 0 4)] ++ [Edit 1 11; Query false (QSig 0 4)]) = Some 10 /\
+  ansN real_config (fun _ _ t => t) [Edit 1 11; Query false (QSig 0 4)] = Some 11.
 Proof. split; vm_compute; reflexivity. Qed.
 
 Lemma stale_parser_witness :
